@@ -25,7 +25,8 @@ def Rec.text (r : Rec) : String :=
         let c := l.compl
         [c.frm, orientStr c.fo, c.to, orientStr c.too, String.ofList c.ovl.print] ++ r.fields.drop 5
     | _, _ => r.fields
-  "\t".intercalate (rtStr r.rt :: fs ++ (if r.virt then ["co:Z:GFAPY_virtual_line"] else []))
+  if r.rt = .unk then "?record_type?\t" ++ fld r 0 ++ "\tco:Z:line_created_by_gfapy"
+  else "\t".intercalate (rtStr r.rt :: fs ++ (if r.virt then ["co:Z:GFAPY_virtual_line"] else []))
 
 /-- E line: keys under which it is filed on sid1 / sid2 (`none` if its positions are inconsistent) -/
 def edgeKeys (r : Rec) : Option (Key × Key) :=
@@ -115,7 +116,7 @@ def verStr : Ver → String | .gfa1 => "gfa1" | .gfa2 => "gfa2"
 /-- canonical observation (same layout as harness/lib.py `obs_flat`) -/
 def obs (st : St) : String :=
   let text := sortStrs (st.lines.map Rec.text)
-  let nms := sortStrs (names st)
+  let nms := sortStrs ((st.lines.filter (fun r => r.rt ≠ .unk)).filterMap Rec.name)
   let virt := sortStrs ((st.lines.filter (·.virt)).map Rec.text)
   let back := sortStrs (st.lines.zipIdx.filterMap (fun (r, i) =>
     let b := backOf st i r
